@@ -46,6 +46,8 @@ def classify(acc, H):
 
 def oracle(H):
     v = oracles.c07(H)
+    if H.verdict == "quiescent":
+        v += oracles.spurious_respawn(H)
     # every worker that ran a task was initialised (C18 shares this observation)
     if H.case["config"].get("initializer") == "ok":
         bad = [e for e in H.exec_log if e["marker"] != "M"]
